@@ -545,6 +545,11 @@ func (p *OAuthProxy) Proxy(rw http.ResponseWriter, req *http.Request) {
 	// If the request is explicitly whitelisted, we skip authentication
 	if p.IsWhitelistedRequest(req) {
 		tags = append(tags, "auth_type:whitelisted")
+		// The request is forwarded without authentication, so it must not carry identity
+		// headers: whatever the client sent under these names is not asserted by the proxy.
+		for _, h := range identityHeaders {
+			req.Header.Del(h)
+		}
 	} else {
 		tags = append(tags, "auth_type:authenticated")
 		err = p.Authenticate(rw, req)
@@ -606,6 +611,15 @@ func (p *OAuthProxy) Proxy(rw http.ResponseWriter, req *http.Request) {
 	p.StatsdClient.Timing("request_overhead", overhead, tags, 1.0)
 
 	p.handler.ServeHTTP(rw, req)
+}
+
+// identityHeaders are the request headers through which the proxy asserts the authenticated
+// user's identity to the upstream.
+var identityHeaders = []string{
+	"X-Forwarded-User",
+	"X-Forwarded-Email",
+	"X-Forwarded-Groups",
+	"X-Forwarded-Access-Token",
 }
 
 // Authenticate authenticates a request by checking for a session cookie, and validating its expiration,
